@@ -27,10 +27,9 @@ type c15Model struct {
 	preBal    map[string]sdkmath.Int // tracked accounts (bech32) -> FX
 	tracked   []string               // bech32, sorted
 	preNow    time.Time
-	// Violations of the per-type rules (threshold / period / quorum of the message type) do
-	// not disturb the ledger model, so the run goes on and they are reported at the end of
-	// the run (first of each id); ledger violations end the run at once.
-	deferred []Violation
+	// Violations of the per-type rules (threshold / period / quorum of the message type) are
+	// reported once per id and run (the framework lets a run continue behind recorded findings).
+	seen map[string]bool
 }
 
 func newC15(r *Run) *c15Model {
@@ -117,14 +116,13 @@ func (m *c15Model) check(r *Run, s *Step, o *Outcome) []Violation {
 	bad := func(inv, site, f string, a ...interface{}) { vs = append(vs, gviol(inv, site, f, a...)) }
 	later := func(inv, site, f string, a ...interface{}) {
 		v := gviol(inv, site, f, a...)
-		v.Step = r.StepNo
-		for _, d := range m.deferred {
-			if d.ID() == v.ID() {
-				return
-			}
+		if m.seen == nil {
+			m.seen = map[string]bool{}
 		}
-		v.Message = fmt.Sprintf("(step %d) %s", r.StepNo, v.Message)
-		m.deferred = append(m.deferred, v)
+		if !m.seen[v.ID()] {
+			m.seen[v.ID()] = true
+			vs = append(vs, v)
+		}
 	}
 	inflation := !r.Cfg.World.NoInflation
 
@@ -467,20 +465,7 @@ func (m *c15Model) check(r *Run, s *Step, o *Outcome) []Violation {
 			vs = append(vs, m.atomicity(r, p, st, ends, pre, post)...)
 		}
 	}
-	if len(vs) > 0 {
-		vs = append(vs, m.deferred...)
-	}
 	return vs
-}
-
-// finish reports the deferred per-type rule violations; which one comes first rotates with
-// the seed (the aggregator keeps one violation per run).
-func (m *c15Model) finish(r *Run) []Violation {
-	if n := len(m.deferred); n > 1 {
-		k := int(r.Seed % uint64(n))
-		return append(append([]Violation{}, m.deferred[k:]...), m.deferred[:k]...)
-	}
-	return m.deferred
 }
 
 // c15End is a proposal that left the open states in the current step.
